@@ -53,7 +53,8 @@ DecBlockin(B, d, w, no, g, eos, pcm) ==
                    THEN IF sc1 > g
                         THEN LET extra0 == sc1 - g
                                  extra  == IF extra0 < 0 THEN 0 ELSE extra0
-                             IN IF eos
+                             IN IF ret1 = -1 THEN [gp |-> g, cur |-> cur1, ret |-> ret1]         \* no samples since the (re)start (track-only blocks): nothing to trim, the marker stays
+                                ELSE IF eos
                                 THEN [gp |-> g, cur |-> cur1 - ShrI(MinOf(extra, pend), hs), ret |-> ret1]
                                 ELSE LET r2 == ret1 + ShrI(extra, hs) IN
                                      [gp |-> g, cur |-> cur1, ret |-> IF r2 > cur1 THEN cur1 ELSE r2]
@@ -61,13 +62,25 @@ DecBlockin(B, d, w, no, g, eos, pcm) ==
                    ELSE [gp |-> -1, cur |-> cur1, ret |-> ret1]
               ELSE LET gp1 == gp0 + adv IN
                    IF g # -1 /\ gp1 # g
-                   THEN IF gp1 > g /\ eos
+                   THEN IF gp1 > g /\ eos /\ ret1 # -1
                         THEN LET extra == MinOf(gp1 - g, pend) IN
                              [gp |-> g, cur |-> cur1 - ShrI(IF extra < 0 THEN 0 ELSE extra, hs), ret |-> ret1]
                         ELSE [gp |-> g, cur |-> cur1, ret |-> ret1]
                    ELSE [gp |-> gp1, cur |-> cur1, ret |-> ret1]
   IN [lW |-> lw, W |-> w, centerW |-> cw1, cur |-> res.cur, ret |-> res.ret, gp |-> res.gp, seq |-> no, sc |-> sc1,
       eof |-> IF eos THEN 1 ELSE d.eof, hs |-> hs]
+
+\* vorbis_synthesis_lapout: consolidates the two-half ring so that the samples from pcm_returned on are contiguous; solid = the flag that makes a second call on the
+\* same block a no-op.  Result [d, solid, n]: n = the count returned (samples exposed from pcm_returned on)
+DecLapout(B, d, solid) ==
+  LET hs == d.hs  n == ShrI(Bs(B, d.W) \div 2, hs)  n0 == ShrI(B[1] \div 2, hs)  n1 == ShrI(B[2] \div 2, hs) IN
+  IF d.ret < 0 THEN [d |-> d, solid |-> solid, n |-> 0]
+  ELSE LET d1 == IF d.centerW = n1 THEN [d EXCEPT !.cur = @ - n1, !.ret = @ - n1, !.centerW = 0] ELSE d          \* the data wraps: swap the halves
+           sh == IF solid \/ d1.cur >= n1 THEN 0
+                 ELSE IF d1.lW # d1.W THEN (n1 - n0) \div 2                                                    \* long/short or short/long
+                 ELSE IF d1.lW = 0 THEN n1 - n0 ELSE 0                                                        \* short/short; long/long needs no move
+           d2 == [d1 EXCEPT !.ret = @ + sh, !.cur = @ + sh]
+       IN [d |-> d2, solid |-> TRUE, n |-> n1 + n - d2.ret]
 
 DecRead(d, n) == [d EXCEPT !.ret = @ + n]                       \* caller keeps n <= DecAvail(d)
 
